@@ -247,6 +247,100 @@ func vfClassify(fr Frame, err error) vfOutcome {
 	return vfOutcome{"other:" + err.Error(), "-", 0, "-"}
 }
 
+// vfFieldMismatch: for a frame the reader accepted, do the parsed fields say what the harness put on the wire?
+// (padding and the fixed prefixes stripped, reserved bits masked, flags as set)
+func vfFieldMismatch(f vfAFrame, fr Frame) string {
+	frag := []byte{0x82, 0x86, 0x84, 0x41}
+	be := func(b []byte) uint32 { return binary.BigEndian.Uint32(b) }
+	switch x := fr.(type) {
+	case *DataFrame:
+		want := vfFill(f.Body)
+		if f.Pad == "full" {
+			want = nil
+		}
+		if !bytes.Equal(x.Data(), want) {
+			return fmt.Sprintf("Data() = %x, sent %x", vfTruncB(x.Data(), 16), vfTruncB(want, 16))
+		}
+		if x.StreamEnded() != f.ES {
+			return "END_STREAM flag lost"
+		}
+	case *HeadersFrame:
+		want := frag
+		if f.Pad == "full" {
+			want = nil
+		}
+		if !bytes.Equal(x.HeaderBlockFragment(), want) {
+			return fmt.Sprintf("HeaderBlockFragment() = %x, sent %x", x.HeaderBlockFragment(), want)
+		}
+		if x.HeadersEnded() != f.EH || x.StreamEnded() != f.ES {
+			return "END_HEADERS / END_STREAM flags differ"
+		}
+		if x.HasPriority() != (f.Prio == "ok") {
+			return "PRIORITY flag differs"
+		}
+		if f.Prio == "ok" && (x.Priority.StreamDep != 3 || !x.Priority.Exclusive || x.Priority.Weight != 200) {
+			return fmt.Sprintf("priority fields %+v, sent exclusive dep 3 weight byte 200", x.Priority)
+		}
+	case *PriorityFrame:
+		p := vfFill(5)
+		if x.StreamDep != be(p)&0x7fffffff || x.Exclusive != (p[0]&0x80 != 0) || x.Weight != p[4] {
+			return fmt.Sprintf("priority fields %+v, sent %x", x.PriorityParam, p)
+		}
+	case *RSTStreamFrame:
+		if uint32(x.ErrCode) != be(vfFill(4)) {
+			return fmt.Sprintf("error code %x, sent %x", uint32(x.ErrCode), vfFill(4))
+		}
+	case *SettingsFrame:
+		if x.IsAck() != f.Ack {
+			return "ACK flag differs"
+		}
+		b := f.bytes()[9:]
+		n := 0
+		bad := ""
+		x.ForeachSetting(func(st Setting) error {
+			if 6*n+6 > len(b) || uint16(st.ID) != binary.BigEndian.Uint16(b[6*n:]) || st.Val != be(b[6*n+2:]) {
+				bad = fmt.Sprintf("setting #%d is %v, sent %x", n, st, b)
+			}
+			n++
+			return nil
+		})
+		if bad == "" && n != len(b)/6 {
+			bad = fmt.Sprintf("%d settings delivered, %d sent", n, len(b)/6)
+		}
+		return bad
+	case *PushPromiseFrame:
+		want := frag
+		if f.Pad == "full" {
+			want = nil
+		}
+		if x.PromiseID != 2 || !bytes.Equal(x.HeaderBlockFragment(), want) {
+			return fmt.Sprintf("promised id %d fragment %x, sent 2 / %x", x.PromiseID, x.HeaderBlockFragment(), want)
+		}
+	case *PingFrame:
+		if !bytes.Equal(x.Data[:], vfFill(8)) || x.IsAck() != f.Ack {
+			return fmt.Sprintf("ping data %x ack %v, sent %x ack %v", x.Data, x.IsAck(), vfFill(8), f.Ack)
+		}
+	case *GoAwayFrame:
+		p := vfFill(f.Len)
+		if x.LastStreamID != be(p)&0x7fffffff || uint32(x.ErrCode) != be(p[4:]) || !bytes.Equal(x.DebugData(), p[8:]) {
+			return fmt.Sprintf("GOAWAY last %x code %x debug %x, sent %x", x.LastStreamID, uint32(x.ErrCode), x.DebugData(), p)
+		}
+	case *WindowUpdateFrame:
+		if x.Increment != f.Incr&0x7fffffff {
+			return fmt.Sprintf("increment %d, sent %d", x.Increment, f.Incr)
+		}
+	case *ContinuationFrame:
+		if !bytes.Equal(x.HeaderBlockFragment(), frag) || x.HeadersEnded() != f.EH {
+			return "CONTINUATION fragment / END_HEADERS differ"
+		}
+	case *UnknownFrame:
+		if !bytes.Equal(x.Payload(), vfFill(f.Len)) {
+			return "unknown frame payload differs"
+		}
+	}
+	return ""
+}
+
 func TestVFC19Read(t *testing.T) {
 	res := &vfResult{Driver: "c19read", Actions: map[string]int{}, Extra: map[string]any{}}
 	defer res.write()
@@ -319,6 +413,12 @@ func TestVFC19Read(t *testing.T) {
 				map[string]any{"frame": f, "bytes": fmt.Sprintf("%x", vfTruncB(fb, 64)), "cont": cont})
 		} else if got != want {
 			divergent++
+		}
+		if pan == nil && got.R == "ok" && fr != nil {
+			if m := vfFieldMismatch(f, fr); m != "" {
+				res.violate(map[string]any{"check": "C19", "kind": "read_fields", "frame_type": f.T},
+					fmt.Sprintf("ReadFrame(%+v) delivered a frame that differs from what was sent: %s", f, m), map[string]any{"frame": f, "bytes": fmt.Sprintf("%x", vfTruncB(fb, 64))})
+			}
 		}
 		if fr != nil && fr.Header().Length > maxRead {
 			res.violate(map[string]any{"check": "C19", "kind": "oversize_frame_delivered"}, fmt.Sprintf("frame of %d bytes delivered with limit %d", fr.Header().Length, maxRead), nil)
